@@ -1,5 +1,6 @@
 import MQ.Props.SpecThms
 import MQ.Inv.RingMain
+import MQ.Inv.DiscMain
 /-!
 # C07 — sender disconnect: every stream drains everything, then sees the end
 -/
@@ -47,5 +48,38 @@ theorem C07_disc_only_if_position_current (σ : St) (t inp p : Nat) (sg : Bool) 
   constructor
   · intro h; simp only [stepRun, hpc, h, ↓reduceIte]
   · intro h; simp only [stepRun, hpc, h, ↓reduceIte]; simp [St.goto, St.flush, St.setTh, upd]
+
+/-! ### the disconnect double check is sound (`DInv`, `MQ/Inv/Disc*.lean`)
+
+Executions: `NRun` (every label; only the F1/F12 exclusions; no futures handle conversions). -/
+
+/-- C07 (soundness of `Disconnected`, shared or single streams): in the state from which a receive returns
+`Disconnected` — program point `r3b`, the stream still at the examined position `p` — no sender handle is counted
+any more, no send is in flight, the stream has consumed *everything* that was ever accepted (`p = head`), and its
+delivery list is the whole log from the position where the stream started: nothing accepted is lost to it. -/
+theorem C07_disconnected_means_drained_partial (N : Nat) (bcast : Bool) (wait : WaitK) (fut : Bool) (hN : 0 < N)
+    (ls : List Label) (σ : St) (r : NRun (init N bcast wait fut) ls σ) (t p : Nat) (sg : Bool)
+    (hpc : (σ.th t).pc = .r3b p sg) (hpos : σ.pos (σ.th t).s = p) :
+    σ.writers = 0 ∧ (∀ u, (σ.th u).pc.claim = none) ∧ p = σ.head ∧
+    σ.dlv (σ.th t).s = σ.log.drop (σ.start (σ.th t).s) :=
+  disc_sound (dall_nrun r (dall_init N bcast wait fut hN)) t p (Or.inl (by rw [hpc]; rfl)) (by rw [hpc]; rfl) hpos
+
+/-- C07 (the same for the view path of a sole consumer): at the second tag load (`v3`), if the tag is still not the
+position's, the stream is drained and no sender exists. -/
+theorem C07_view_disconnected_means_drained_partial (N : Nat) (bcast : Bool) (wait : WaitK) (fut : Bool) (hN : 0 < N)
+    (ls : List Label) (σ : St) (r : NRun (init N bcast wait fut) ls σ) (t p : Nat)
+    (hpc : (σ.th t).pc = .v3 p) (htag : σ.tag (p % σ.N) ≠ some p) :
+    σ.writers = 0 ∧ (∀ u, (σ.th u).pc.claim = none) ∧ p = σ.head ∧
+    σ.dlv (σ.th t).s = σ.log.drop (σ.start (σ.th t).s) := by
+  have A := dall_nrun r (dall_init N bcast wait fut hN)
+  have L := A.i.loc t; simp only [Loc, hpc] at L
+  exact disc_sound A t p (Or.inr ⟨by rw [hpc]; rfl, htag⟩) (by rw [hpc]; rfl) L
+
+/-- C07 (what the double check relies on): between the `writers == 0` load and the report, `writers` is — and
+stays — zero, and from the second tag load on the tag is — and stays — missing. -/
+theorem C07_double_check_facts_partial (N : Nat) (bcast : Bool) (wait : WaitK) (fut : Bool) (hN : 0 < N)
+    (ls : List Label) (σ : St) (r : NRun (init N bcast wait fut) ls σ) (t p : Nat) (b : Bool)
+    (h : (σ.th t).pc.dpos = some (p, b)) : σ.writers = 0 ∧ (b = true → σ.tag (p % σ.N) ≠ some p) :=
+  (dall_nrun r (dall_init N bcast wait fut hN)).d.chk t p b h
 
 end MQ
